@@ -198,7 +198,7 @@ Proof.
   assert (Hupd : forall insts i it it', nth_opt insts i = Some it -> is_live_original it' = is_live_original it ->
             length (filter is_live_original (upd insts i it')) = length (filter is_live_original insts)).
   { intros. now apply (filter_upd_same_flags insts i it it'). }
-  destruct b as [i m a|i|i|i|i|i|i|i|i m a|n|].
+  destruct b as [i m a|i|i|i|i|i|i|i|i m a|n| |i m a].
   - (* call *)
     destruct (live_inst w i) as [it|] eqn:Hl; [|cbn; lia]. apply live_inst_nth in Hl as [Hn _].
     destruct (call _ _ _ _ _ _ _ _) as [s' act]. cbn [fst]. unfold after_call, originals.
@@ -238,6 +238,27 @@ Proof.
     rewrite (originals_kill w1 i it1 Hn1). lia.
   - cbn [fst]. unfold originals, set_armed. cbn [w_insts]. lia.
   - destruct (live_values _ _ _). cbn. lia.
+  - (* call through a receiver kind *)
+    destruct (live_inst w i) as [it|] eqn:Hl; [|cbn; lia]. apply live_inst_nth in Hl as [Hn _].
+    destruct (call _ _ _ _ _ _ _ _) as [s1 act].
+    assert (Hk : forall w', w_insts w' = w_insts w -> (originals (kill w' i it) <= originals w)%nat).
+    { intros w' Hw. unfold originals, kill, set_insts. cbn [w_insts]. rewrite Hw, (filter_upd_dead _ i it Hn). lia. }
+    assert (Hh : forall w', w_insts w' = w_insts w ->
+               (originals (set_insts w' (upd (w_insts w') i (set_helper it))) <= originals w)%nat).
+    { intros w' Hw. unfold originals, set_insts. cbn [w_insts]. rewrite Hw, (Hupd _ i it); [lia|assumption|reflexivity]. }
+    assert (Hs : forall w', w_insts w' = w_insts w -> (originals w' <= originals w)%nat).
+    { intros w' Hw. unfold originals. rewrite Hw. lia. }
+    match goal with |- context [match ?d with Some _ => _ | None => _ end] => destruct d end; [apply Hk; reflexivity|].
+    destruct (eval_act _ _ _ _ _ _ _ _) as [[s2 ar2] r].
+    destruct (recv_of m).
+    + destruct act; cbn [fst]; first [apply Hh; reflexivity|apply Hs; reflexivity].
+    + destruct act; cbn [fst]; first [apply Hh; reflexivity|apply Hs; reflexivity].
+    + destruct r; [|cbn [fst]; apply Hk; reflexivity].
+      destruct act; try (match goal with |- context [match ?d with Some _ => _ | None => _ end] => destruct d end); cbn [fst]; apply Hk; reflexivity.
+    + destruct r; [|cbn [fst]; apply Hk; reflexivity].
+      destruct act; try (match goal with |- context [match ?d with Some _ => _ | None => _ end] => destruct d end); cbn [fst]; apply Hk; reflexivity.
+    + cbn [fst]. apply Hs. reflexivity.
+    + destruct act; cbn [fst]; first [apply Hh; reflexivity|apply Hs; reflexivity].
 Qed.
 
 Theorem originals_run es : forall w, (originals (fold_left (fun w e => fst (step w e)) es w) <= originals w)%nat.
@@ -255,11 +276,11 @@ Proof. intros H1 Hn Ho. rewrite (originals_kill w i it Hn), Ho, H1. reflexivity.
 (* a dead instance is never used again: every event on it is refused, nothing changes *)
 Theorem dead_instance_inert w x b :
   (forall i, match b with
-             | BCall j _ _ | BCallOwn j _ _ => j = i | BClone j | BDrop j | BVerify j | BNvid j | BReport j
+             | BCall j _ _ | BCallOwn j _ _ | BCallD j _ _ => j = i | BClone j | BDrop j | BVerify j | BNvid j | BReport j
              | BLend j | BCount j => j = i | BArm _ | BLive => False end -> live_inst w i = None) ->
   (match b with BArm _ | BLive => False | _ => True end) ->
   step w {| ev_ctx := x; ev_base := b |} = (w, "invalid"%string).
 Proof.
   intros H Hb. unfold step. cbn [ev_base ev_ctx].
-  destruct b as [i m a|i|i|i|i|i|i|i|i m a|n|]; try contradiction; now rewrite (H i eq_refl).
+  destruct b as [i m a|i|i|i|i|i|i|i|i m a|n| |i m a]; try contradiction; now rewrite (H i eq_refl).
 Qed.
